@@ -13,6 +13,8 @@ CONSTANTS
   MaxCrash = 2
   MaxRepeat = 1
   DetOrder = FALSE
+  Mults <- M1
+  SortedDel = "scan"
   MetKeyWraps = TRUE
   SkipTooBig = TRUE
   PqIdsLoaded = FALSE
